@@ -240,8 +240,13 @@ def r6(cx):
             conflict += 1
             cx.check(rel == ("committed", "Gt", "start_seq"), "conflict <=> committed > start_seq", "conflict-predicate",
                      "%s:%d" % (b.file, line), "the conflict predicate is `%s %s %s`, expected committed > start_seq" % rel)
-            cx.check(true_arm is not None and _arm_returns(b, true_arm, "TransactionWriteConflict"),
-                     "the true arm of the conflict test returns TransactionWriteConflict", "conflict-arm", "%s:%d" % (b.file, line))
+            ok_arm = true_arm is not None and _arm_returns(b, true_arm, "TransactionWriteConflict")
+            if true_arm is None and b.blocks[i].get("inl"):
+                # the test is the result of a closure handed to a higher-order function (`keys.any(|k| ..)`): the verdict
+                # reaches the caller as that call's boolean; its true arm must return the conflict (the polarity inside
+                # the combinator chain is not decided here)
+                ok_arm = _combinator_verdict_returns(b, "TransactionWriteConflict")
+            cx.check(ok_arm, "the true arm of the conflict test returns TransactionWriteConflict", "conflict-arm", "%s:%d" % (b.file, line))
     cx.floor("retry comparisons", retry, 1)
     cx.floor("conflict comparisons", conflict, 1)
     # every key is looked up: the lookup sits in the loop over `keys`, and the Ok exit is only reached from the loop exit
@@ -294,6 +299,21 @@ def _true_arm(b, i):
     if zero:
         return t[3]
     return None
+
+
+def _combinator_verdict_returns(b, variant):
+    from ..core import bool_edges
+    for c in b.calls:
+        if c.bb not in b.live or c.ret_ty != "bool" or c.copy_of or c.callee.get("local"):
+            continue
+        # a higher-order call in the function's own code whose closure argument was spliced in
+        if c.hof and len(c.dest) == 1:
+            e, sw = bool_edges(b, c.dest[0], c.target)
+            if e:
+                for tgt, lab in e.items():
+                    if lab == frozenset({True}) and _arm_returns(b, tgt, variant):
+                        return True
+    return False
 
 
 def _arm_returns(b, start, variant):
